@@ -136,8 +136,10 @@ def make_renamer(prog, kind, sym, new):
                 if len(segs) > 4 and segs[3] == "frame" and segs[4] == old and in_family(segs[2]):
                     segs[4] = new
             elif kind == "actor":
-                if len(segs) > 6 and segs[3] == "frame" and segs[5] == "actor" and segs[6] == old:
-                    segs[6] = new
+                # an actor name of several parts (`as wolf x y`) is the run of segments wolf.x.y
+                o, n = old.split(), new.split()
+                if len(segs) >= 6 + len(o) and segs[3] == "frame" and segs[5] == "actor" and segs[6:6 + len(o)] == o:
+                    segs[6:6 + len(o)] = n
         return ".".join(segs)
 
     return rename
@@ -268,6 +270,9 @@ def run_case(prog):
     houses = None
     for kind, sym in prog["entities"]:
         new = metagen.FRESH
+        if kind == "actor" and " " in names[sym]:
+            # fresh name of another shape (number of parts, adjacent one-letter parts)
+            new = metagen.FRESH + (" q r" if len(names[sym].split()) != 3 else " q")
         names2 = dict(names)
         names2[sym] = new
         text2 = metagen.render_templates(prog["lines"], names2)
@@ -283,10 +288,21 @@ def run_case(prog):
             continue
         ren = make_renamer(prog, kind, sym, new)
         exp_paths = sorted({ren(p) for p in paths})
+        if kind == "actor" and (" " in names[sym] or " " in new):
+            # a name of k parts owns k nested nodes (actor.wolf., actor.wolf.x., ...): the inner ones are not
+            # "the renamed originals" of anything when the number of parts changes, so they are left out on both sides
+            def partial(path, parts):
+                sg = path.split(".")
+                if len(sg) > 7 and sg[3] == "frame" and sg[5] == "actor" and sg[-1] == "":
+                    run = sg[6:-1]
+                    return 0 < len(run) < len(parts) and run == parts[:len(run)]
+                return False
+            exp_paths = [p for p in exp_paths if not partial(p, names[sym].split()) and not partial(p, new.split())]
+            paths2 = [p for p in paths2 if not partial(p, new.split())]
         if exp_paths != paths2:
             missing = [p for p in exp_paths if p not in set(paths2)]
             extra = [p for p in paths2 if p not in set(exp_paths)]
-            stale = [p for p in extra if names[sym] in p.replace("_", ".").split(".")]
+            stale = [p for p in extra if names[sym].split()[0] in p.replace("_", ".").split(".")]
             cat = "stale-old-name" if stale else "other-path-changed"
             fails.append(("rename:%s:paths:%s" % (kind, cat),
                           "%s: store paths are not the renamed originals; expected but absent %s; present but "
